@@ -3,6 +3,7 @@ CONSTANTS
   PtrRule = "decreasing"
   CharStrGuard = TRUE
   Alphabet = {0, 1, 2, 3, 64, 65, 192, 12}
+  EmitMax = 4
   MaxLen = 5
-INVARIANTS NoPanic NoHang InsideRdata AgreesWithOracle
+INVARIANTS EmitCase NoPanic NoHang InsideRdata AgreesWithOracle
 CHECK_DEADLOCK FALSE
